@@ -121,7 +121,16 @@ class BasicBlock:
         body = self._exprs
 
         if self._config.common_subexpression_elimination:
-            prefix, body = cse(body, symbols=(Symbol(f"_t{i}") for i in count()))
+            # A temporary must not redeclare one of the block's own targets
+            # (a model symbol may itself be called _t0)
+            prefix, body = cse(
+                body,
+                symbols=(
+                    Symbol(f"_t{i}")
+                    for i in count()
+                    if f"double _t{i}" not in self._targets
+                ),
+            )
 
         # Note: The list of statements is ordered and can get CSE or reordered
         # within the block because we know it is straight calculation without
